@@ -1233,7 +1233,7 @@ fn wake_send_waiters<T>(waiters: &mut LinkedList<SendWaitQueueEntry<T>>) {''',
 }
 
 // Export a non thread-safe version using NoopLock''',
-     'expect': {'C05': ['C05.W'], 'C06': ['C06.W']}},
+     'expect': {'C05': ['C05.R2']}},
     {'name': 'sem-try-acquire-rounds-up', 'file': 'src/sync/semaphore.rs',
      'old': '''        if self.state.lock().try_acquire_sync(nr_permits) {
             Some(GenericSemaphoreReleaser {''',
@@ -1249,7 +1249,7 @@ fn wake_send_waiters<T>(waiters: &mut LinkedList<SendWaitQueueEntry<T>>) {''',
         g.set();
         g.reset();
     }''',
-     'expect': {'C14': ['C14.W']}},
+     'expect': {'C14': ['C14.R1']}},
     # ---------------------------------------------------------------- must-rules (converses)
     {'name': 'mutex-guard-drop-conditional-unlock', 'file': 'src/sync/mutex.rs',
      'old': '''        let waker = { self.mutex.state.lock().unlock() };''',
@@ -1731,6 +1731,13 @@ impl<'a, MutexType, T> FusedFuture for ChannelReceiveFuture<'a, MutexType, T> {'
     {'name': 'benign-refactor-RF5-oneshot-broadcast-state', 'props': ALLP + ['C16'], 'patch': 'benign/RF5/patch.diff'},
     {'name': 'benign-refactor-RF6-buffers-list-heap', 'props': ALLP + ['C16'], 'patch': 'benign/RF6/patch.diff'},
     {'name': 'benign-refactor-RF7-channel-futures-and-shared-flavours', 'props': ALLP + ['C16'], 'patch': 'benign/RF7/patch.diff'},
+    {'name': 'benign-refactor-RF8-mutex-and-event-2', 'props': ALLP + ['C16'], 'patch': 'benign/RF8/patch.diff'},
+    {'name': 'benign-refactor-RF9-semaphore-2', 'props': ALLP + ['C16'], 'patch': 'benign/RF9/patch.diff'},
+    {'name': 'benign-refactor-RF10-mpmc-everything-2', 'props': ALLP + ['C16'], 'patch': 'benign/RF10/patch.diff'},
+    {'name': 'benign-refactor-RF11-timer-and-utils-2', 'props': ALLP + ['C16'], 'patch': 'benign/RF11/patch.diff'},
+    {'name': 'benign-refactor-RF12-state-and-oneshot-broadcast-2', 'props': ALLP + ['C16'], 'patch': 'benign/RF12/patch.diff'},
+    {'name': 'benign-refactor-RF13-list-heap-buffers-2', 'props': ALLP + ['C16'], 'patch': 'benign/RF13/patch.diff'},
+    {'name': 'benign-refactor-RF14-oneshot-futures-errors-2', 'props': ALLP + ['C16'], 'patch': 'benign/RF14/patch.diff'},
     {'name': 'benign-unrelated-additions', 'props': ALLP, 'edits': [
         {'file': 'src/sync/semaphore.rs',
          'old': '''    /// Returns the amount of permits that are available on the semaphore
